@@ -27,7 +27,8 @@ pub struct ReplicaCase {
     /// per block: transactions, optional delta direction
     pub blocks: Vec<(Vec<TxSpec>, Option<u8>)>,
     /// separate mode: before block `at` a bad variant is offered (0 flipped state root, 1 root of a
-    /// different transaction list, 2 a transaction altered under the recorded roots)
+    /// different transaction list, 2 a transaction altered under the recorded roots, 3 everything right
+    /// except prev_hash, so that the refusal comes from the chain after the transactions were applied)
     pub bad: Option<(u16, u8, TxSpec)>,
 }
 
@@ -36,7 +37,7 @@ pub fn strategy(t: Tier) -> impl Strategy<Value = ReplicaCase> {
     (
         prop::bool::weighted(0.15),
         prop::collection::vec(blk, 1..=t.pick(6usize, 8usize)),
-        prop::option::weighted(0.6, (any::<u16>(), 0u8..3, tx_strategy())),
+        prop::option::weighted(0.6, (any::<u16>(), 0u8..4, tx_strategy())),
     )
         .prop_map(|(wired, blocks, bad)| ReplicaCase { wired, blocks, bad })
 }
@@ -150,7 +151,7 @@ fn separate(c: &ReplicaCase, ctx: &mut CaseCtx) -> Result<(), Fail> {
                 for tx in &bad_txs {
                     apply_tx(&mut other, tx);
                 }
-                let bad: Option<(Block, &str)> = match how % 3 {
+                let bad: Option<(Block, &str)> = match how % 4 {
                     0 => {
                         let mut r = root;
                         r[5] ^= 0x04;
@@ -158,6 +159,12 @@ fn separate(c: &ReplicaCase, ctx: &mut CaseCtx) -> Result<(), Fail> {
                     },
                     1 if state_root(&other) != root => Some((build(txs.clone(), state_root(&other)), "root-of-other-transactions")),
                     2 if other != next => Some((build(bad_txs.clone(), root), "other-transactions-under-recorded-root")),
+                    3 => {
+                        let mut blk = build(txs.clone(), root);
+                        blk.header.prev_hash[9] ^= 0x20;
+                        blk.header.signature = id.sign(&signing_bytes(&blk.header));
+                        Some((blk, "right-root-wrong-prev-hash"))
+                    },
                     _ => None,
                 };
                 if let Some((bad, name)) = bad {
